@@ -106,6 +106,11 @@ func (c *cctpModel) deposit(ctx context.Context, r cctpReq) error {
 		c.burned = math.ZeroInt()
 	}
 	c.burned = c.burned.Add(r.amount)
+	// ... and CCTP burns before it sends the message
+	if c.faults && verif.Bool("fault-cctp-after-burn") {
+		c.failed++
+		return errors.New("injected: sending the message failed (after the burn)")
+	}
 	c.reqs = append(c.reqs, r)
 	return nil
 }
@@ -186,6 +191,12 @@ func (h *hypModel) RemoteTransfer(ctx context.Context, m *warptypes.MsgRemoteTra
 	}
 	_ = m.GasLimit.IsZero()
 	_ = sdk.NewCoins(m.MaxFee)
+	// the real message server escrows first and looks the router up afterwards: it can fail AFTER the funds have moved
+	// (the failed call is undone only because the whole receive is reverted on the error acknowledgement, E1)
+	if h.faults && verif.Bool("fault-hyp-transfer-after-escrow") {
+		h.failed++
+		return nil, errors.New("injected: no enrolled router for the destination domain (after the collateral was taken)")
+	}
 	h.reqs = append(h.reqs, m)
 	return &warptypes.MsgRemoteTransferResponse{}, nil
 }
